@@ -381,7 +381,7 @@ func drawC11(t *rapid.T) *Case {
 func init() {
 	register(&CheckDef{ID: "C10", Level: "fault_enumeration", Engine: "A", Draw: drawC10,
 		Rule:     "random part: a faulty client (random bytes on the raw TCP connection; random / mutated / truncated HTTP/2 frame bytes or HTTP/1.1 garbage inside a real TLS session; abort at a random offset; injected I/O error or callback panic; 35%: back-end answers that outlive drawn -timeout-http-read / -timeout-http-write values) runs next to a concurrent control client and before a second control client; oracle: the worker process is alive and both control clients are served with correct fingerprints. Non-trivial: a fault fired or garbage was sent. Distinct: distinct controller action-label sequences.",
-		EnumRule: "enumerated part: 9360 boundary frames (every frame type 0-9 x 8 flag sets x length 0-12 x 9 pad-length octets around the frame length and around length minus the fixed fields) behind a legal preface and an open stream; then, over a fixed HTTP/1.1 session, a fixed HTTP/2 session and a fixed HTTP/1.1 session that upgrades the protocol and sends two messages through the tunnel: client disconnect (FIN and RST) after EVERY byte offset; a read error (ECONNRESET / timeout / generic), a write error (EPIPE / timeout) and a deadline-setter error at EVERY I/O operation index of the proxy side of the connection; a panic at EVERY occurrence of each user callback reachable from the connection goroutine (GetConfigForClient, GetCertificate, ConnState, header injector, request handler). After each case a control client performs a full request on a fresh connection. Quick tier: stride sample; thorough tier: every index.",
+		EnumRule: "enumerated part: 9360 boundary frames (every frame type 0-9 x 8 flag sets x length 0-12 x 9 pad-length octets around the frame length and around length minus the fixed fields) behind a legal preface and an open stream; 156 frames (every type 0-12 x 4 flag sets x own / other / zero stream) sent between a HEADERS frame without END_HEADERS and its CONTINUATION; then, over a fixed HTTP/1.1 session, a fixed HTTP/2 session and a fixed HTTP/1.1 session that upgrades the protocol and sends two messages through the tunnel: client disconnect (FIN and RST) after EVERY byte offset; a read error (ECONNRESET / timeout / generic), a write error (EPIPE / timeout) and a deadline-setter error at EVERY I/O operation index of the proxy side of the connection; a panic at EVERY occurrence of each user callback reachable from the connection goroutine (GetConfigForClient, GetCertificate, ConnState, header injector, request handler). After each case a control client performs a full request on a fresh connection. Quick tier: stride sample; thorough tier: every index.",
 		Enum:     &EnumDef{Params: faultParams, Count: c10Count, Case: c10Case}})
 }
 
@@ -412,6 +412,10 @@ func c10Decode(p map[string]int, i int) c10Fault {
 		return c10Fault{Kind: "frame", Session: "h2", Idx: i}
 	}
 	i -= nBoundaryFrames
+	if i < nInBlockFrames {
+		return c10Fault{Kind: "inblock", Session: "h2", Idx: i}
+	}
+	i -= nInBlockFrames
 	for _, s := range []string{"h1", "h2", "h1up"} {
 		n := 2 * (p[s+"_total"] + 1)
 		if i < n {
@@ -452,6 +456,28 @@ var boundaryFlags = []uint8{0x8, 0x28, 0x20, 0x9, 0x2d, 0x0, 0x4, 0x1}
 
 const nBoundaryFrames = 10 * 8 * 13 * 9
 
+// frames of every type 0-12 (four flag sets, on the block's stream / another stream / stream 0)
+// sent where only a CONTINUATION may follow: between a HEADERS frame without END_HEADERS and
+// its CONTINUATION
+const nInBlockFrames = 13 * 4 * 3
+
+func inBlockFrame(i int) Frame {
+	typ := uint8(i % 13)
+	i /= 13
+	flags := []uint8{0, 0x4, 0x1, 0x2d}[i%4]
+	i /= 4
+	stream := []uint32{1, 3, 0}[i%3]
+	ln := map[uint8]int{FData: 3, FHeaders: 1, FPriority: 5, FRSTStream: 4, FSettings: 0, FPushPromise: 5, FPing: 8, FGoAway: 8, FWindowUpdate: 4, FContinuation: 1}[typ]
+	pl := make([]byte, ln)
+	if typ == FWindowUpdate || typ == FPriority {
+		pl[3] = 1
+	}
+	if typ == FContinuation || typ == FHeaders {
+		pl[0] = 0x82
+	}
+	return Frame{Type: typ, Flags: flags, Stream: stream, Payload: pl}
+}
+
 func boundaryFrame(i int) Frame {
 	typ := uint8(i % 10)
 	i /= 10
@@ -478,7 +504,7 @@ func boundaryFrame(i int) Frame {
 }
 
 func c10Count(p map[string]int) int {
-	n := nBoundaryFrames
+	n := nBoundaryFrames + nInBlockFrames
 	for _, s := range []string{"h1", "h2", "h1up"} {
 		n += 2*(p[s+"_total"]+1) + len(readKinds)*p[s+"_rops"] + len(writeKinds)*p[s+"_wops"] + p[s+"_dops"]
 		for _, site := range panicSites {
@@ -512,6 +538,17 @@ func c10Case(p map[string]int, i int) *Case {
 		cp.Steps = []Step{{Kind: "connect"}, {Kind: "write", Pieces: [][]byte{append(pre, FramesBytes(hs...)...)}}, {Kind: "write", Pieces: [][]byte{bf.Bytes()}}, {Kind: "readeof"}, {Kind: "close"}}
 		m.Reqs = nil
 		plan.Args = []string{"-timeout-http-idle", "2s"}
+	case "inblock":
+		// a frame where only a CONTINUATION may follow: HEADERS without END_HEADERS, the
+		// frame, then the CONTINUATION that would have completed the block
+		bf := inBlockFrame(fc.Idx)
+		enc := NewHEnc()
+		pre := append([]byte(ClientPreface), FramesBytes(SettingsFrame())...)
+		block := enc.Block([][2]string{{":method", "GET"}, {":scheme", "https"}, {":authority", "fixed.verif.test"}, {":path", "/inblock"}, {"x-tag", "c0-r0"}, {"x-fill", strings.Repeat("f", 40)}})
+		hs := HeadersFrames(1, block, true, nil, -1, []int{7})
+		cp.Steps = []Step{{Kind: "connect"}, {Kind: "write", Pieces: [][]byte{append(pre, hs[0].Bytes()...)}}, {Kind: "write", Pieces: [][]byte{bf.Bytes()}}, {Kind: "write", Pieces: [][]byte{FramesBytes(hs[1:]...)}}, {Kind: "readeof"}, {Kind: "close"}}
+		m.Reqs = nil
+		plan.Args = []string{"-timeout-http-idle", "2s"}
 	case "abort":
 		cp.AbortKind, cp.AbortAt = fc.How, fc.Idx
 	case "read":
@@ -535,7 +572,7 @@ func c10Case(p map[string]int, i int) *Case {
 		checkControl(w, c, 2, c.Summary)
 	}
 	c.Nontrivial = func(w *World, c *Case) bool {
-		return w.Clients[0].aborted || len(w.Net.Faults) > 0 || fc.Kind == "frame"
+		return w.Clients[0].aborted || len(w.Net.Faults) > 0 || fc.Kind == "frame" || fc.Kind == "inblock"
 	}
 	return c
 }
